@@ -131,9 +131,10 @@ def canon_value(v):
 
 
 def canon_index(ix):
+    names = tuple(map(str, ix.names)) if any(nm is not None for nm in ix.names) else ()
     if isinstance(ix, pd.RangeIndex):
-        return ("RangeIndex", ix.start, ix.stop, ix.step)
-    return (type(ix).__name__, tuple(map(str, ix)))
+        return ("RangeIndex", ix.start, ix.stop, ix.step) + names
+    return (type(ix).__name__, tuple(map(str, ix))) + names
 
 
 def close_canon(a, b, tol=1e-10):
